@@ -163,6 +163,15 @@ def apply_overlay(scratch):
             with open(ppath, "a") as fh:
                 fh.write("\n" + line)
             appended.append((os.path.relpath(ppath, repo), line.strip()))
+    # path dependency on the support crate (holds the stubs' unsafe): appended table
+    cargo = os.path.join(repo, CRATE, "Cargo.toml")
+    sup = os.path.join(scratch.root, "verif-support")
+    if os.path.exists(sup):
+        shutil.rmtree(sup)
+    shutil.copytree(os.path.join(VERIF, "kani", "support"), sup)
+    with open(cargo, "a") as fh:
+        fh.write("\n[dependencies.verif-support]\npath = \"%s\"\n" % sup)
+    appended.append((CRATE + "/Cargo.toml", "[dependencies.verif-support] path = <scratch>/verif-support"))
     # The one *prepended* line: a nightly feature gate needed by the Display
     # harness (core::fmt::Formatter::new).  Inner attributes must come first.
     lib = os.path.join(repo, CRATE, "src", "lib.rs")
